@@ -348,6 +348,31 @@ def run(*, tier, seed, jobs, progress, opts):
         cov['samples'] += [[e['name'] for e in smp] for smp in c['samples'][:2]]
         cov['alphabet_size'] = len(m.alphabet())
         violations += res.violations
+    # the maildir backend: the store is files, the oracle a byte comparison
+    # of the user's whole file tree
+    import multiprocessing as mp
+    from . import c12md
+    from ..worlds import scratch_parent
+    progs = c12md.programs(tier)
+    layouts = ['++'] if tier == 'quick' else ['++', 'fs']
+    chunk = max(8, len(progs) // 16)
+    mtasks = [(lay, progs[i:i + chunk]) for lay in layouts
+              for i in range(0, len(progs), chunk)]
+    md = 0
+    with scratch_parent(), mp.get_context('fork').Pool(jobs or 16) as pool:
+        for vs, n in pool.imap_unordered(c12md.task, mtasks):
+            violations += vs
+            md += n
+    cov['maildir'] = {'layouts': layouts, 'programs': md,
+                      'rule': 'every command of the alphabet (and every '
+                              'ordered pair of 12 core commands) inside '
+                              'EXAMINE INBOX on real files; the complete '
+                              'file tree of the user (names = flags and '
+                              'new/cur placement, contents, UID lists) must '
+                              'be byte-identical afterwards, except additions '
+                              'in the mailbox a COPY names'}
+    cov['transitions'] += md
+    cov['traces_validated_against_impl'] += md
     cov['exhaustive'] = True
     cov['rule'] = ('every program up to the depth bound over the full '
                    'message-command alphabet inside a read-only selection; '
@@ -356,12 +381,22 @@ def run(*, tier, seed, jobs, progress, opts):
                    'command is applied in every reachable state)')
     return finish(PROP, tier=tier, seed=seed, level='model_checking',
                   coverage=cov, violations=violations, t0=t0, assumptions=[
-                      'dict backend with demo data; <= 1 observer',
+                      'dict backend with demo data; <= 1 observer; maildir: '
+                      'programs of <= 2 commands, file-tree oracle',
                       'observers only NOOP'])
 
 
 def replay(rec):
     r = rec['replay']
+    if r.get('md'):
+        from . import c12md
+        from ..worlds import scratch_parent
+        with scratch_parent():
+            vs = c12md.run_program(r['layout'], [
+                (ln.encode('latin1'), k) for ln, k in r['lines']])
+        for v in vs:
+            print('VIOLATION-REPLAYED', v['rule'], v['site'], v['msg'])
+        return 1 if vs else 0
     m = Model(**r['params'])
     viols = run_history(m, r['history'])
     for v in viols:
